@@ -3,7 +3,7 @@
    guard, and Print Assumptions. *)
 From Coq Require Import ZArith List Bool Permutation Sorted.
 From Verif Require Import Gen.GenService Gen.GenConsts Gen.GenNetworks Model.CacheModel Model.Service
-  Proofs.ServiceExec Proofs.ServiceCache Proofs.ServiceWrappers Proofs.ServiceGlue.
+  Proofs.ServiceExec Proofs.ServiceCache Proofs.ServiceWrappers Proofs.ServiceGlue Proofs.ServiceAddrCache.
 Import ListNotations.
 Open Scope Z_scope.
 
@@ -189,8 +189,13 @@ Example wrappers_do_not_fabricate_refuted_wrong_txid :
 Proof. repeat split; try (vm_compute; reflexivity). intros H; inversion H. Qed.
 
 (* --- the cache returns what was stored --- *)
+(* single rows and variables; and the address index: a provider answer [hist] — transactions of the address with
+   arbitrary block heights, several per block, unconfirmed ones among them — filed by the caching loop of
+   Service.gettransactions into a cache that holds nothing of the address; for EVERY after_txid among the stored
+   transactions and EVERY limit the cached answer is exactly the slice a provider holding the stored transactions gives
+   for the same query *)
 Theorem cache_returns_what_was_stored :
-  (forall c t, c_on c = true -> t_confirmed t = true ->
+  ((forall c t, c_on c = true -> t_confirmed t = true ->
      cache_gettx (cache_store_tx c t) (t_txid t) = Some (match cache_gettx c (t_txid t) with Some t0 => t0 | None => t end)) /\
   (forall c t, cache_store_tx (cache_store_tx c t) t = cache_store_tx c t) /\
   (forall c t txid, txid <> t_txid t -> cache_gettx (cache_store_tx c t) txid = cache_gettx c txid) /\
@@ -200,8 +205,196 @@ Theorem cache_returns_what_was_stored :
   (forall c name v exp, cache_var_set (cache_var_set c name v exp) name v exp = cache_var_set c name v exp) /\
   (forall c now now' name v, now <= now' -> cache_var_get c now' name = Some v -> cache_var_get c now name = Some v) /\
   (forall c a lb b nu, c_on c = true ->
-     exists r, cache_getaddr (cache_store_address c a lb (Some b) nu) a = Some r /\ a_balance r = Some b).
-Proof. exact cache_combined. Qed.
+     exists r, cache_getaddr (cache_store_address c a lb (Some b) nu) a = Some r /\ a_balance r = Some b)) /\
+  (forall c a hist lb0 b rec after limit,
+     xc_on c = true ->
+     mine_of c a = [] ->
+     NoDup (map row_id (xc_rows c)) ->
+     Forall (fun t => touches a t = true) hist ->
+     (forall t, In t (confirmed hist) -> atx_storable t = true) ->
+     NoDup (map atx_id (confirmed hist)) ->
+     (forall t, In t (confirmed hist) -> ~ In (atx_id t) (map row_id (xc_rows c))) ->
+     StronglySorted (fun x y => atx_height x <= atx_height y) (confirmed hist) ->
+     c_on b = true -> cache_getaddr b a = Some rec ->
+     1 <= limit ->
+     match after with
+     | None => True
+     | Some aid =>
+       In aid (map atx_id (confirmed hist)) /\
+       exists lb, a_last_block rec = Some lb /\ lb <> 0 /\ forall t, In t (confirmed hist) -> atx_height t <= lb
+     end ->
+     xc_gettransactions (with_base (fst (store_loop c hist 0 lb0)) b) a after limit = prov_txs (confirmed hist) a after limit).
+Proof. exact cache_combined_full. Qed.
+
+(* the same for any cache content: whenever the rows of the address lie in the cache in (block_height, index) order,
+   Cache.gettransactions(address, after_txid, limit) is the provider's slice of the stored transactions *)
+Theorem cached_transactions_are_the_stored_slice : forall c a rec after limit,
+  xc_on c = true ->
+  cache_getaddr (xc_base c) a = Some rec ->
+  in_chain_order c a ->
+  NoDup (map row_id (xc_rows c)) ->
+  1 <= limit ->
+  match after with
+  | None => True
+  | Some aid =>
+    In aid (map row_id (mine_of c a)) /\
+    exists lb, a_last_block rec = Some lb /\ lb <> 0 /\ forall r, In r (mine_of c a) -> atx_height (r_tx r) <= lb
+  end ->
+  xc_gettransactions c a after limit = prov_txs (map r_tx (mine_of c a)) a after limit.
+Proof. exact ServiceAddrCache.cached_transactions_are_the_stored_slice. Qed.
+
+Theorem cached_utxos_are_the_stored_outputs : forall c a,
+  xc_on c = true ->
+  let outs := filter (fun r => pays a (r_tx r)) (xc_rows c) in
+  StronglySorted row_le outs -> Forall flag_known outs ->
+  xc_getutxos c a None = map (fun r => utxo_of (r_tx r)) (filter unspent_row outs) /\
+  (forall aid pre d post, outs = pre ++ d :: post -> row_id d = aid -> ~ In aid (map row_id post) ->
+     xc_getutxos c a (Some aid) = map (fun r => utxo_of (r_tx r)) (filter unspent_row post)).
+Proof. exact ServiceAddrCache.cached_utxos_are_the_stored_outputs. Qed.
+
+(* an address whose cache entry is up to date is answered from the cache alone, whatever the providers do *)
+Theorem gettransactions_served_from_cache : forall st now bc_ps q a after limit c s rec lb v,
+  st_minp st <= 1 -> 1 <= limit ->
+  cache_getaddr (xc_base c) a = Some rec -> a_last_block rec = Some lb -> lb <> 0 ->
+  cache_blockcount (xc_base c) now = Some v -> v <> 0 -> v <= lb ->
+  let r := lib_gettransactions st now bc_ps q a after limit c s in
+  let l0 := xc_gettransactions c a after limit in
+  (exists l, xr_ret r = WRet (VTxs l) /\ (l = l0 \/ l = update_spents a l0)) /\
+  xr_cn r = Z.of_nat (length l0) /\ s_res (xr_svc r) = [] /\ s_errs (xr_svc r) = [].
+Proof. exact gettransactions_up_to_date_from_cache. Qed.
+
+(* every origin of a returned transaction list: cached slice ++ (nothing | the answer of a provider asked for what
+   follows the last cached transaction); only the spent flags of a complete list are recomputed *)
+Theorem gettransactions_origins : forall st now bc_ps q a after limit c s l,
+  xr_ret (lib_gettransactions st now bc_ps q a after limit c s) = WRet (VTxs l) ->
+  let l1 := if st_minp st <=? 1 then xc_gettransactions c a after limit else [] in
+  let qafter := match opt_last l1 with Some t => Some (atx_id t) | None => after end in
+  let limit1 := if is_nil l1 then limit else limit - Z.of_nat (length l1) in
+  exists p, (p = [] \/ provider_answer (map (inst_txs a qafter limit1) q) (VTxs p)) /\
+            (l = l1 ++ p \/ l = update_spents a (l1 ++ p)).
+Proof. exact gettransactions_origin. Qed.
+
+(* no partial answers: with every provider failing, an address that is not synchronised gets ServiceError (or the one
+   full page the cache can fill by itself); getutxos never returns the cached outputs alone *)
+Theorem gettransactions_never_partial : forall st now bc_ps q a after limit c s,
+  never_synced (xc_base c) a -> all_fail q ->
+  let r := lib_gettransactions st now bc_ps q a after limit c s in
+  let l0 := xc_gettransactions c a after limit in
+  xr_ret r = WServiceErr \/ (xr_ret r = WRet (VTxs l0) /\ Z.of_nat (length l0) = limit /\ l0 <> []).
+Proof. exact gettransactions_no_partial_answer. Qed.
+
+Theorem getutxos_never_partial : forall st q a after limit c s,
+  all_fail q -> xr_ret (lib_getutxos_x st q a after limit c s) = WServiceErr.
+Proof. exact getutxos_no_partial_answer. Qed.
+
+Theorem getutxos_cached_origins : forall st q a after limit c s v,
+  xr_ret (lib_getutxos_x st q a after limit c s) = WRet v ->
+  let cached := if st_minp st <=? 1 then xc_getutxos c a after else [] in
+  let after1 := match opt_last cached with Some u => Some (u_txid u) | None => after end in
+  exists p, provider_answer (map (inst_utxos a after1 limit) q) (VUtxoL p) /\ v = VUtxoL (cached ++ p).
+Proof. exact getutxos_x_origin. Qed.
+
+(* non-vacuity: five transactions, three of them in one block, filed from one answer; after_txid in the middle of the
+   block, a limit below the count, and a provider asked the same thing *)
+Example address_index_example :
+  let hist := [rx 0 700000; rx 1 700010; rx 2 700010; rx 3 700010; rx 4 700020; rx 5 0] in
+  let c := fst (store_loop synced_cache hist 0 None) in
+  map atx_id (xc_gettransactions c 0 None 20) = [0; 1; 2; 3; 4] /\
+  map atx_id (xc_gettransactions c 0 (Some 1) 20) = [2; 3; 4] /\
+  map atx_id (xc_gettransactions c 0 (Some 2) 1) = [3] /\
+  xc_gettransactions c 0 (Some 1) 2 = prov_txs (confirmed hist) 0 (Some 1) 2 /\
+  xr_ret (lib_getutxos_x (st1 1 nw_bitcoin) [(0, AOut (Raise 1)); (1, AView hist)] 0 None 20 c svc0) = WServiceErr /\
+  xr_ret (lib_getutxos_x (st1 4 nw_bitcoin) [(0, AOut (Raise 1)); (1, AView hist)] 0 (Some 3) 20 c svc0)
+    = WRet (VUtxoL [utxo_of (rx 4 700020); utxo_of (rx 5 0)]).
+Proof. repeat split; vm_compute; reflexivity. Qed.
+
+(* refutation witnesses for the guard (rows of the address in chain order): recorded findings.
+   (1) the address is filed by two calls that split block 700010: `index` restarts at 0 in the second answer, the
+       cached order is 0,2,1,3 and after_txid = 1 loses transaction 2;
+   (2) a single transaction filed by gettransaction (no index) sorts in front of its block;
+   (3) a transaction the cache refuses (no input value) is missing from every later cached answer, and the ones behind
+       it are filed without index *)
+Example cache_returns_what_was_stored_refuted_split_block :
+  let c1 := fst (store_loop synced_cache [rx 0 700000; rx 1 700010] 0 None) in
+  let c2 := fst (store_loop c1 [rx 2 700010; rx 3 700010] 0 None) in
+  map atx_id (xc_gettransactions c2 0 None 20) = [0; 2; 1; 3] /\
+  map atx_id (xc_gettransactions c2 0 (Some 1) 20) = [3] /\
+  map atx_id (prov_txs [rx 0 700000; rx 1 700010; rx 2 700010; rx 3 700010] 0 (Some 1) 20) = [2; 3] /\
+  ~ in_chain_order c2 0.
+Proof.
+  repeat split; try (vm_compute; reflexivity).
+  intros H. apply sort_rows_sorted_id in H. vm_compute in H. discriminate H.
+Qed.
+
+Example cache_returns_what_was_stored_refuted_single_first :
+  let c1 := snd (xc_store_tx synced_cache (rx 1 700010) (-1)) in
+  let c2 := fst (store_loop c1 [rx 0 700010; rx 1 700010; rx 2 700010] 0 None) in
+  map atx_id (xc_gettransactions c2 0 None 20) = [1; 0; 2].
+Proof. vm_compute; reflexivity. Qed.
+
+Example cache_returns_what_was_stored_refuted_refused_transaction :
+  let hist := [rx 0 700000; rx_refused 1 700010; rx 2 700020] in
+  let '(c1, lb) := store_loop synced_cache hist 0 (Some 800000) in
+  let c2 := store_all c1 hist in
+  lb = Some 700009 /\ map atx_id (xc_gettransactions c2 0 None 20) = [0; 2] /\
+  map r_index (xc_rows c2) = [0; -1].
+Proof. repeat split; vm_compute; reflexivity. Qed.
+
+(* blocks: the rows of a block filed with their position in the block, pages in ascending order — the cached page is the
+   page of the filed transactions, for every page number and page size *)
+Theorem cached_block_page_is_the_filed_page : forall c h btxs page limit,
+  xc_on c = true ->
+  filter (fun r => atx_height (r_tx r) =? h) (xc_rows c) = number 0 btxs ->
+  1 <= page -> 0 <= limit ->
+  xc_getblocktransactions c h page limit = block_page btxs page limit.
+Proof. exact ServiceAddrCache.cached_block_page_is_the_filed_page. Qed.
+
+Theorem getblock_origins : forall st q h parse page limit c s v,
+  xr_ret (lib_getblock st q h parse page limit c s) = WRet v ->
+  (exists cnt, xc_getblock c h = Some cnt /\ v = VBlock h cnt (xc_getblocktransactions c h page limit) parse) \/
+  provider_answer (map (inst_block h parse page limit) q) v \/
+  (v = VBool false /\ (limit_reached st (map (inst_block h parse page limit) q) \/
+                       exists a, provider_answer (map (inst_block h parse page limit) q) a /\ truthy a = false)).
+Proof. exact getblock_origin. Qed.
+
+Example block_page_example :
+  let blk := [rx 0 700010; rx 1 700010; rx 2 700010; rx 3 700010] in
+  let c1 := store_page synced_cache (block_page blk 1 2) 0 in
+  let c2 := xc_store_block (store_page c1 (block_page blk 2 2) 2) 700010 4 in
+  map atx_id (xc_getblocktransactions c2 700010 1 2) = [0; 1] /\
+  map atx_id (xc_getblocktransactions c2 700010 2 2) = [2; 3] /\
+  map atx_id (xc_getblocktransactions c2 700010 2 3) = [3] /\
+  xr_ret (lib_getblock (st1 4 nw_bitcoin) [(0, AOut (Raise 1))] 700010 true 1 25 c2 svc0) = WRet (VBlock 700010 4 blk true).
+Proof. repeat split; vm_compute; reflexivity. Qed.
+
+(* refutation witnesses for the guard of cached_block_page_is_the_filed_page (recorded findings): pages filed in
+   descending order come back in filing order when the query has no ORDER BY (with ORDER BY index they would not); a transaction filed before by an address query keeps the index it had in
+   that answer and turns up on the wrong page (page 1 of size 2 then holds three transactions) *)
+Example cached_block_page_refuted_unordered :
+  let blk := [rx 0 700010; rx 1 700010; rx 2 700010; rx 3 700010] in
+  let c1 := store_page synced_cache (block_page blk 2 2) 2 in
+  let c2 := xc_store_block (store_page c1 (block_page blk 1 2) 0) 700010 4 in
+  map atx_id (xc_getblocktransactions_gen [] c2 700010 1 25) = [2; 3; 0; 1] /\
+  map atx_id (xc_getblocktransactions_gen [2] c2 700010 1 25) = [0; 1; 2; 3].
+Proof. split; vm_compute; reflexivity. Qed.
+
+Example cached_block_page_refuted_answer_index :
+  let blk := [rx 0 700010; rx 1 700010; rx 2 700010; rx 3 700010] in
+  let c1 := fst (store_loop synced_cache [rx 3 700010] 0 None) in
+  let c2 := xc_store_block (store_page c1 blk 0) 700010 4 in
+  map atx_id (xc_getblocktransactions c2 700010 1 2) = [3; 0; 1].
+Proof. vm_compute; reflexivity. Qed.
+
+(* the operators and ORDER BY columns of the cache read paths the model builds in (regenerated from services.py) *)
+Theorem source_facts_cache_reads :
+  svc_cgt_after_block_op = 5 /\ svc_cgt_last_block_op = 3 /\ svc_cgt_limit_op = 5 /\ svc_cgt_reset_op = 0 /\
+  svc_cgt_append_before_reset = 1 /\ svc_cgt_order_after = [1; 2] /\ svc_cgt_order_all = [1; 2] /\
+  svc_cgu_unspent_op = 6 /\ svc_cgu_unknown_op = 6 /\ svc_cgu_reset_op = 0 /\ svc_cgu_output_filter_op = 0 /\
+  svc_cgu_order = [1; 2] /\
+  svc_cbt_from_op = 5 /\ svc_cbt_to_op = 2 /\ svc_cbt_height_op = 0 /\
+  svc_sgt_page_full_op = 0 /\ svc_sgt_uptodate_op = 5 /\ svc_sgt_incomplete_op = 0 /\ svc_sgt_provider_false_op = 6 /\
+  svc_sgt_unconfirmed_op = 1 /\ svc_sgu_incomplete_op = 5 /\ svc_sgb_last_page_op = 4.
+Proof. exact glue_cache_reads. Qed.
 
 (* what a query fetched once is served from the cache afterwards whatever the providers do then *)
 Theorem gettransaction_served_from_cache : forall st ps txid c s t c' s',
@@ -259,3 +452,13 @@ Print Assumptions gettransaction_served_from_cache.
 Print Assumptions estimatefee_served_from_cache.
 Print Assumptions cache_disabled_is_inert.
 Print Assumptions source_facts.
+Print Assumptions cached_transactions_are_the_stored_slice.
+Print Assumptions cached_utxos_are_the_stored_outputs.
+Print Assumptions gettransactions_served_from_cache.
+Print Assumptions gettransactions_origins.
+Print Assumptions gettransactions_never_partial.
+Print Assumptions getutxos_never_partial.
+Print Assumptions getutxos_cached_origins.
+Print Assumptions source_facts_cache_reads.
+Print Assumptions cached_block_page_is_the_filed_page.
+Print Assumptions getblock_origins.
